@@ -37,7 +37,7 @@ def split_entry(prefix, builder, whiches, **flags):
 
 
 class Choices:
-    def __init__(self, rng=None, replay=None, seed_value=0, callback=None):
+    def __init__(self, rng=None, replay=None, seed_value=0, callback=None, dtype=None):
         self.rng = rng
         self.replay = list(replay) if replay is not None else None
         self.rec = []
@@ -46,6 +46,7 @@ class Choices:
         self.notes = {}
         self.fp_tags = []  # (argument path prefix, tag) pairs that refine C15 fingerprints
         self.last_weights = None
+        self.dtype = np.float32 if dtype in ("float32", np.float32) else np.float64  # per-workload data dtype
 
     def idx(self, n):
         i = len(self.rec)
@@ -88,20 +89,19 @@ class Choices:
         rs = rs or self.rs()
         kind = self.choice(kinds)
         shape = tuple(shape)
+        dt = dtype or self.dtype
         if kind == "slice" and len(shape) >= 1:
-            base = rs.random_sample(tuple(2 * s for s in shape))
+            base = rs.random_sample(tuple(2 * s for s in shape)).astype(dt)
             a = base[tuple(slice(None, None, 2) for _ in shape)]
         elif kind == "tview" and len(shape) >= 2:
-            base = rs.random_sample(shape[::-1])
+            base = rs.random_sample(shape[::-1]).astype(dt)
             a = base.T
         elif kind == "f":
-            a = np.asfortranarray(rs.random_sample(shape))
+            a = np.asfortranarray(rs.random_sample(shape).astype(dt))
         else:
-            a = rs.random_sample(shape)
+            a = rs.random_sample(shape).astype(dt)
         if not nonneg and signed:
-            a -= 0.4  # in place on the fresh buffer: keeps the view structure
-        if dtype is not None and dtype != np.float64:
-            a = a.astype(dtype)
+            a -= dt(0.4) if dt is not np.float64 else 0.4  # in place on the fresh buffer: keeps the view structure
         return a
 
     def low_rank(self, shape, rank, nonneg=False, kinds=("c", "f", "tview", "slice")):
